@@ -6,4 +6,4 @@
              the cdef() call that DEFINES the struct/union apply;
      false = anywhere else (e.g. where the model type object is first created): the options of
              the cdef() that first MENTIONS the tag would apply. *)
-Definition packed_from_defining_cdef : bool := false.
+Definition packed_from_defining_cdef : bool := true.
